@@ -277,7 +277,7 @@ func describeArgs(args []interface{}) string {
 		case zap.Field:
 			parts = append(parts, fmt.Sprintf("Field{%q,%v}", v.Key, v.Type))
 		case error:
-			parts = append(parts, fmt.Sprintf("error(%q)", v.Error()))
+			parts = append(parts, fmt.Sprintf("error(%T %v)", v, v)) // %v survives typed nil pointers
 		default:
 			parts = append(parts, fmt.Sprintf("%T(%v)", a, a))
 		}
@@ -311,6 +311,12 @@ type sugarMsgBeh struct {
 	Known bool     `json:"known"`
 }
 
+// fmtStrg implements both fmt.Formatter and fmt.Stringer: fmt uses Format.
+type fmtStrg struct{ id int }
+
+func (f fmtStrg) String() string { return "short" }
+func (f fmtStrg) Format(s fmt.State, c rune) { fmt.Fprintf(s, "ID<%d>", f.id) }
+
 func msgArg(class string, v int) interface{} {
 	switch class {
 	case "str":
@@ -327,6 +333,12 @@ func msgArg(class string, v int) interface{} {
 		return nil
 	case "stringer":
 		return strg{"stringer-value"}
+	case "nilptr-stringer":
+		return (*jePtrStringer)(nil)
+	case "nilptr-err":
+		return (*jePtrErr)(nil)
+	case "fmt-stringer":
+		return fmtStrg{7}
 	}
 	return nil
 }
